@@ -245,6 +245,29 @@ def bufOK (it : Item) : Buf → Bool
 
 def itemOK (it : Item) : Bool := it.bufs.all (bufOK it)
 
+
+/-! ## callbacks: the abstract interface of a function-pointer argument (`Wrapf.dump_abstract_interfaces`)
+    against the parameter list `gen_arg_as_c` prints inside the C function-pointer type -/
+
+/-- one callback parameter as printed in the C function-pointer type -/
+def cbArgC (a : Arg) : ParamC := ⟨a.cbase, a.ptr⟩
+
+/-- one callback parameter in the abstract interface: `is_array() > 1` -> `type(C_PTR)`, otherwise `bind_c` -/
+def cbArgF (a : Arg) : DummyF :=
+  if a.ptr > 1 then ⟨.cptr, false, .scalar⟩
+  else ⟨a.fbase, a.value, if a.farray then .array else .scalar⟩
+
+def cbProto (ps : List Arg) : List ParamC := ps.map cbArgC
+def cbIface (ps : List Arg) : List DummyF := ps.map cbArgF
+
+/-- C return type versus Fortran function result (18.3.6 (2)): scalar, a pointer pairs with `type(C_PTR)` -/
+def resInterop (c : ParamC) (f : DummyF) : Bool :=
+  f.shape == .scalar && !f.value && (if c.ptr ≥ 1 then f.base == .cptr else baseMatch c.base f.base)
+
+/-- result declaration of the abstract interface: `type(C_PTR)` for void / pointer results, else `f_c_type or f_type` -/
+def cbResF (cb : CBase) (ptr : Nat) (fb : FBase) : DummyF :=
+  if cb == .void || ptr ≥ 1 then ⟨.cptr, false, .scalar⟩ else ⟨fb, false, .scalar⟩
+
 /-! ## decoding of the Nat-encoded tables (Gen/Interop.lean) and of driver requests -/
 
 def decCBase (c n : Nat) : Option CBase :=
